@@ -223,6 +223,9 @@ def gen_desc(rng, max_decls=8, used=None):
         elif r < 0.5:
             name = fresh("E")
             items = [(rng.choice(WORDS).upper() + str(j), rng.choice([j, j * 3, 255, 65535, -1])) for j in range(rng.randint(1, 4))]
+            if rng.random() < 0.12:
+                # the ends of the i32 that carries an enumerator in the reflection record, and just beyond them
+                items[-1] = (items[-1][0], rng.choice([2 ** 31 - 1, -2 ** 31, 2 ** 31 - 1, -2 ** 31, 2 ** 31, 2 ** 32 + 5, -2 ** 31 - 1]))
             d.decls.append({"k": "enum", "name": name, "items": items})
             enums.append(name)
         elif r < 0.75:
